@@ -13,12 +13,13 @@ MaxTime == 1073741823
 Buckets == <<64, 64, 32, 4, 1>>
 Shift == <<10, 16, 22, 27, 29>>
 Clamp == TRUE
-VARIABLES time, where, dl, expired, schedAt
+Due == TRUE
+VARIABLES time, where, dl, expired, schedAt, tog
 W == INSTANCE TimerWheel
 
 Recs == ndJsonDeserialize(IOEnv.VERIF_TRACE)
 VARIABLES i, dev
-allvars == <<time, where, dl, expired, schedAt, i, dev>>
+allvars == <<time, where, dl, expired, schedAt, tog, i, dev>>
 F(idx, name, detail) == [rec |-> idx, pred |-> name, detail |-> ToString(detail)]
 
 PosOf(r) == [t \in Timers |-> IF \E j \in DOMAIN r.pos : r.pos[j].t = t
@@ -28,31 +29,30 @@ Init == /\ W!Init /\ i = 1 /\ dev = <<>>
 
 Step(r) ==
     CASE r.tp = "reset" -> /\ time' = 0 /\ where' = [t \in Timers |-> W!None] /\ dl' = [t \in Timers |-> 0]
-                           /\ expired' = {} /\ schedAt' = [t \in Timers |-> 0]
+                           /\ expired' = {} /\ schedAt' = [t \in Timers |-> 0] /\ UNCHANGED tog
       [] r.tp = "add"   -> /\ dl' = [dl EXCEPT ![r.t] = r.d]
                            /\ where' = [where EXCEPT ![r.t] = W!FindBucket(time, r.d)]
                            /\ schedAt' = [schedAt EXCEPT ![r.t] = time]
                            /\ expired' = expired \ {r.t}
-                           /\ UNCHANGED time
+                           /\ UNCHANGED <<time, tog>>
       [] r.tp = "ext"   -> /\ dl' = [dl EXCEPT ![r.t] = r.d]      \* W!Extend: deadline moved in place, the wheel is not told
-                           /\ UNCHANGED <<time, where, expired, schedAt>>
+                           /\ UNCHANGED <<time, where, expired, schedAt, tog>>
       [] r.tp = "del"   -> /\ where' = IF r.t \in Timers THEN [where EXCEPT ![r.t] = W!None] ELSE where
-                           /\ UNCHANGED <<time, dl, expired, schedAt>>
+                           /\ UNCHANGED <<time, dl, expired, schedAt, tog>>
       [] r.tp = "adv"   -> LET T == r.d
-                               hit(t) == /\ where[t] # W!None
-                                         /\ W!Active(where[t][1], time, T)
-                                         /\ where[t][2] \in W!Visited(where[t][1], time, T)
+                               hit(t) == W!Hit(where[t], time, T)
                            IN /\ expired' = {t \in Timers : hit(t) /\ dl[t] < T}
                               /\ where' = [t \in Timers |-> IF ~hit(t) THEN where[t]
                                                              ELSE IF dl[t] < T THEN W!None ELSE W!FindBucket(T, dl[t])]
                               /\ time' = T
+                              /\ tog' = ~tog
                               /\ UNCHANGED <<dl, schedAt>>
 
 Devs(r, idx) ==
     LET logged == PosOf(r)
         wrong == {t \in Timers : logged[t] # where'[t]}
-        late == {t \in Timers : where'[t] # W!None /\ ~(dl'[t] + W!Tick >= time' \/ schedAt'[t] + W!Tick > time')}
-        lateReal == {t \in Timers : logged[t] # W!None /\ ~(dl'[t] + W!Tick >= r.time \/ schedAt'[t] + W!Tick > r.time)}
+        \* (F23: no excuse for timers that were scheduled less than a tick ago - the write may have returned long before)
+        lateReal == {t \in Timers : logged[t] # W!None /\ ~(dl'[t] + W!Tick >= r.time)}
     IN (IF wrong # {} THEN <<F(idx, "C13.bucket", [t \in wrong |-> <<"want", where'[t], "got", logged[t], "dl", dl'[t], "time", time'>>])>> ELSE <<>>)
        \o (IF r.tp = "adv" /\ {r.expired[j] : j \in DOMAIN r.expired} # expired'
            THEN <<F(idx, "C13.expired_set", <<"want", expired', "got", r.expired>>)>> ELSE <<>>)
@@ -68,6 +68,6 @@ Next == \/ /\ i <= Len(Recs)
         \/ /\ i = Len(Recs) + 1
            /\ JsonSerialize(IOEnv.VERIF_DEVOUT, [n |-> Len(Recs), devs |-> dev])
            /\ i' = i + 1
-           /\ UNCHANGED <<time, where, dl, expired, schedAt, dev>>
+           /\ UNCHANGED <<time, where, dl, expired, schedAt, tog, dev>>
 Spec == Init /\ [][Next]_allvars
 =============================================================================
